@@ -214,6 +214,13 @@ def run(ctx):
     for v in ("strict", "stale", "window"):
         ctx.mc("Clustering", "MC_Clustering_" + v, expect="RuleHolds")
     ctx.mc("Clustering", "MC_Clustering_small" if ctx.quick else "MC_Clustering", need_actions=acts)
+    # every complete-linkage step of the machine is a ScanStep of CompleteMonoProof.tla, whose two-scan product is proved
+    # monotone in the threshold for EVERY layout (TLAPS, CompleteMonoProof_proofs.tla); the stale-anchor variant is not
+    ctx.mc("CompleteMonoRefines", "MC_CompleteMonoRefines", need_actions=("CompleteStep",))
+    ctx.mc("CompleteMonoRefines", "MC_CompleteMonoRefines_neg", expect="IsScanStep")
+    if not ctx.quick:
+        from harness import proofs
+        proofs.recheck(ctx, ["CompleteMonoProof_proofs"])
     # ---- G
     beh = ctx.gen("Clustering", "Gen_Clustering_quick" if ctx.quick else "Gen_Clustering_thorough", timeout=3000)
     ctx.exhaustive = True
